@@ -4,6 +4,7 @@ import (
 	"bytes"
 	"fmt"
 	"math/rand/v2"
+	"runtime"
 	"strconv"
 	"strings"
 	"sync"
@@ -27,6 +28,8 @@ func driveCache(r *result, seed uint64, budget time.Duration) {
 		{maxSize: 64, maxCount: 3, lru: true, cb: true},
 		{maxSize: 40, maxCount: 0, lru: true, cb: true},
 		{maxSize: 0, maxCount: 2, lru: true},
+		{maxSize: 0, maxCount: 2, lru: true, cb: true},
+		{maxSize: 24, maxCount: 0, lru: true, cb: true},
 		{maxSize: 48, maxElem: 20, maxCount: 4, lru: false},
 	}
 	deadline := time.Now().Add(budget)
@@ -76,6 +79,16 @@ func cacheRound(r *result, seed uint64, cfg cacheCfg, goroutines int) {
 			i := n
 			cbSeq.Unlock()
 			r.count("ondelete", 1)
+			// the mutex is released while the callback runs: give the other goroutines time to act in
+			// that window (a Get hit, a Set that has to evict, a Set that takes the freed slot)
+			switch i % 5 {
+			case 0:
+				runtime.Gosched()
+			case 1:
+				time.Sleep(20 * time.Microsecond)
+			case 2:
+				time.Sleep(200 * time.Microsecond)
+			}
 			// re-enter the cache from the callback
 			switch i % 4 {
 			case 0:
